@@ -95,6 +95,7 @@ def place_task(cname, datatype):
         dom = tc.smt()
         I = tc.interp(stubs=funcs.refined_stubs(dom))
         hints = {"cls": cname, "datatype": datatype}
+        tc.native = ("place", hints)
 
         def thunk(I):
             o, sh = model.make_state(I, dom, cname, datatype, cache="none")
